@@ -147,6 +147,9 @@ func TestVerifC11JSON(t *testing.T) {
 		r.Fail("save: %v", err)
 		return
 	}
+	// the configured threshold is tracked here (the store has no getter; the harness does not read
+	// private fields, which a correct refactoring may well change)
+	curThr := 0.75
 	type writer struct {
 		name string
 		ops  []func(s *Scanner)
@@ -155,7 +158,7 @@ func TestVerifC11JSON(t *testing.T) {
 		{"Add(X.v1),Add(Y.v2)", []func(*Scanner){func(s *Scanner) { a := c11jSig("X", 1, p); s.AddSignature(&a) }, func(s *Scanner) { a := c11jSig("Y", 2, p); s.AddSignature(&a) }}},
 		{"Batch(X.v2,Z.v1)", []func(*Scanner){func(s *Scanner) { s.AddSignatures([]detection.Signature{c11jSig("X", 2, p), c11jSig("Z", 1, p)}) }}},
 		{"LoadDatabase", []func(*Scanner){func(s *Scanner) { s.LoadDatabase(dbfile) }}},
-		{"SetThreshold(0.5),SetThreshold(0.95)", []func(*Scanner){func(s *Scanner) { s.SetThreshold(0.5) }, func(s *Scanner) { s.SetThreshold(0.95) }}},
+		{"SetThreshold(0.5),SetThreshold(0.95)", []func(*Scanner){func(s *Scanner) { s.SetThreshold(0.5); curThr = 0.5 }, func(s *Scanner) { s.SetThreshold(0.95); curThr = 0.95 }}},
 	}
 	readers := c11jReaders()
 	type scen struct{ rs, ws []int }
@@ -182,7 +185,7 @@ func TestVerifC11JSON(t *testing.T) {
 					s2.sigMap[sg.ID] = i
 				}
 			}
-			s2.matchThreshold = thr
+			s2.SetThreshold(thr)
 			out = readers[ri].call(s2, p)
 		})
 		expectCache[key] = out
@@ -210,9 +213,17 @@ func TestVerifC11JSON(t *testing.T) {
 		distinct := map[string]bool{}
 		body := func() {
 			s := NewScanner()
+			curThr = 0.75
 			vrt.Atomic(func() {
 				a := c11jSig("S", 1, p)
 				s.AddSignature(&a)
+				// two weaker matches of the probe (confidence between the thresholds the settings writer
+				// moves through): one scan judges all of them with one threshold, or none
+				for _, id := range []string{"M1", "M2"} {
+					m := c11jSig(id, 2, p) // scores 0.739 against the probe
+					m.TopologyHash = "eeee" + id
+					s.AddSignature(&m)
+				}
 			})
 			states = states[:0]
 			outs = outs[:0]
@@ -223,7 +234,7 @@ func TestVerifC11JSON(t *testing.T) {
 					for _, sg := range d.Signatures {
 						k = append(k, sg.ID+"/"+sg.Name)
 					}
-					states = append(states, c11jState{db: d, thr: s.matchThreshold, key: strings.Join(k, ",")})
+					states = append(states, c11jState{db: d, thr: curThr, key: strings.Join(k, ",")})
 				})
 			}
 			snap()
